@@ -271,7 +271,67 @@ func (burstArea) Gen(r *hx.Rng, n int, tier string, emit func(string)) {
 	}
 }
 
+// genPressure: a tree with small caps, a burst that overfills it, then several ticks during which the queue drains
+// front to back; children are closed while they have requests waiting.
+func genPressure(r *hx.Rng, emit func(string)) int {
+	cnt := 0
+	out := func(s string) { emit(s); cnt++ }
+	rootCap := r.Range(1, 8)
+	out("reset " + strconv.Itoa(rootCap))
+	caps := []int{rootCap}
+	parent := []int{-1}
+	depth := []int{0}
+	for i, k := 0, r.Range(0, 4); i < k; i++ {
+		p := r.Intn(len(caps))
+		if depth[p] >= 3 {
+			p = 0
+		}
+		c := hx.Pick(r, []int{caps[p] + r.Range(1, 4), caps[p], caps[p] - 1, (caps[p] + 1) / 2, r.Range(1, 9)})
+		if c < 1 {
+			c = 1
+		}
+		out(fmt.Sprintf("new %d %d", p, c))
+		caps, parent, depth = append(caps, c), append(parent, p), append(depth, depth[p]+1)
+	}
+	closed := make([]bool, len(caps))
+	use := func() {
+		l := r.Intn(len(caps))
+		if len(caps) > 1 && r.Chance(2, 3) {
+			l = r.Range(1, len(caps)-1)
+		}
+		amt := hx.Pick(r, []int{1, 1, 2, 3, caps[l], caps[l], (caps[l] + 1) / 2, rootCap, r.Range(1, 8)})
+		out(fmt.Sprintf("use %d %d", l, amt))
+	}
+	for i, k := 0, r.Range(3, 12); i < k; i++ {
+		use()
+	}
+	for t, k := 0, r.Range(2, 6); t < k; t++ {
+		if len(caps) > 1 && r.Chance(1, 4) {
+			l := r.Range(1, len(caps)-1)
+			if !closed[l] {
+				out(fmt.Sprintf("close %d", l))
+				closed[l] = true
+			}
+		}
+		for i, m := 0, r.Intn(3); i < m; i++ {
+			use()
+		}
+		if r.Chance(1, 6) {
+			out(fmt.Sprintf("last %d", r.Intn(len(caps))))
+		}
+		out("tick")
+	}
+	if r.Chance(2, 3) {
+		out("close 0")
+		out(fmt.Sprintf("last %d", r.Intn(len(caps))))
+	}
+	return cnt
+}
+
 func genHistory(r *hx.Rng, emit func(string)) int {
+	if r.Chance(2, 5) {
+		return genPressure(r, emit)
+	}
 	cnt := 0
 	out := func(s string) { emit(s); cnt++ }
 	rootCap := hx.Pick(r, []int{0, 1, 2, 3, 4, 5, 6, 8, 10, 12})
